@@ -166,6 +166,9 @@ def run_rows(ck, rows, rng, n_val, only_fixed=None):
             arg = list(sentinel.random_theta(rng, name, wide=False).values())
             farg = list(sentinel.random_theta(rng, name, wide=False).values())
             expl = list(sentinel.random_theta(rng, name, wide=False).values())
+            if rng.integers(0, 4) == 0:
+                # whole-number parameter values handed over as Python ints (an explicit lambda_=2, sigma=1, ...)
+                expl = [int(max(1, round(v))) if v > 0 else int(round(v)) for v in expl]
             dep = list(sentinel.random_theta(rng, name, wide=False).values())
             eff_theta = {params[p]: (farg[p] if (p in row["fixed"] and (row["mode"] == 2 or p not in row["expl"]))
                                      else dep[p] if row["mode"] == 2
